@@ -1107,3 +1107,227 @@ Proof.
   destruct Hin as (i & eid & Hi & k & tok & Hk & -> & j & col & Hj & Hc & Hr & ->).
   apply (H i eid k tok j col Hi Hk Hj Hc). lia.
 Qed.
+
+(* ------------------------------------------------------------------------------ *)
+(* entries of the Jacobians are the partial derivatives                            *)
+(* ------------------------------------------------------------------------------ *)
+Local Close Scope nat_scope.
+Local Open Scope R_scope.
+
+Lemma eval_equation_diff : forall rho sd lg (t : tree RD),
+  diff_of RD (eval_equation RD rho sd lg t) =
+  match eval RD rho sd lg t with VA d => snd d + 0 | _ => 0 end.
+Proof.
+  intros rho sd lg t. unfold eval_equation. destruct (eval RD rho sd lg t) as [c | d | ]; reflexivity.
+Qed.
+
+(* the diff the evaluator returns for an equation, seeded on one token, is the partial derivative of the
+   residual w.r.t. that occurrence ... *)
+Theorem equation_diff_plain : forall (t : tree RD) rho lg tok,
+  lg (fst tok) = false -> adm t rho -> eval RD rho (ind RD tok) lg t <> VRej ->
+  is_derive (fun u => den t (upd rho tok u)) (rho tok) (diff_of RD (eval_equation RD rho (ind RD tok) lg t)).
+Proof.
+  intros t rho lg tok Hlg Hadm Hrej. rewrite eval_equation_diff.
+  pose proof (partial_plain t rho lg tok Hlg Hadm) as H.
+  destruct (eval RD rho (ind RD tok) lg t) as [c | d | ]; simpl in H; [ | | congruence ].
+  - apply (is_derive_ext (fun _ : R => c)); [ intros u; symmetry; apply H | apply is_derive_const_R ].
+  - destruct H as [_ D]. eapply is_derive_eq; [ exact D | symmetry; apply Rplus_0_r ].
+Qed.
+
+(* ... w.r.t. its logarithm for a log-variable *)
+Theorem equation_diff_log : forall (t : tree RD) rho lg tok,
+  lg (fst tok) = true -> 0 < rho tok -> adm t rho -> eval RD rho (ind RD tok) lg t <> VRej ->
+  is_derive (fun u => den t (upd rho tok (exp u))) (ln (rho tok)) (diff_of RD (eval_equation RD rho (ind RD tok) lg t)).
+Proof.
+  intros t rho lg tok Hlg Hpos Hadm Hrej. rewrite eval_equation_diff.
+  pose proof (partial_log t rho lg tok Hlg Hpos Hadm) as H.
+  destruct (eval RD rho (ind RD tok) lg t) as [c | d | ]; simpl in H; [ | | congruence ].
+  - apply (is_derive_ext (fun _ : R => c)); [ intros u; symmetry; apply H | apply is_derive_const_R ].
+  - destruct H as [_ D]. eapply is_derive_eq; [ exact D | symmetry; apply Rplus_0_r ].
+Qed.
+
+(* whether an equation is rejected does not depend on the seeds *)
+Lemma rejection_seed_independent : forall rho sd sd' lg (t : tree RD),
+  match eval RD rho sd lg t, eval RD rho sd' lg t with
+  | VRej, VRej => True | VC c, VC c' => c = c' | VA _, VA _ => True | _, _ => False
+  end.
+Proof.
+  intros rho sd sd' lg. induction t as [c | q s | a IHa | a IHa | o a IHa b IHb | f a IHa | f a IHa b IHb | f a IHa];
+    cbn [eval];
+    repeat match goal with
+           | |- context [eval RD rho ?s lg ?x] => destruct (eval RD rho s lg x)
+           end;
+    simpl in *; try contradiction; subst; auto;
+    try (destruct o; simpl; auto; destruct has_rpow; exact I);
+    try (destruct (is_method _); try destruct f; simpl; auto).
+Qed.
+
+(* ------------------------------------------------------------------------------ *)
+(* offered in equations: differentiated correctly or rejected                      *)
+(* ------------------------------------------------------------------------------ *)
+
+(* every name of the dispatch table, applied to an Atom, either is rejected by the model (Python raises
+   TypeError) or is one of the functions for which a rule lemma above is proved *)
+Definition proved_function (name : string) : bool :=
+  existsb (String.eqb name) ("log" :: "exp" :: "sqrt" :: "logistic" :: "maximum" :: nil)%string
+  || (String.eqb name "minimum" && minimum_is_method).
+
+Lemma offered_or_rejected : forall name, In name offered ->
+  is_method name = false \/ proved_function name = true.
+Proof.
+  intros name H. unfold offered in H. simpl in H.
+  repeat (destruct H as [<- | H]; [ vm_compute; auto | ]). contradiction.
+Qed.
+
+Lemma offered_fn_names : forall f : fn, In (fn_name f) offered.
+Proof. intros f. destruct f; vm_compute; tauto. Qed.
+Lemma offered_fn2_names : forall f : fn2, In (fn2_name f) offered.
+Proof. intros f. destruct f; vm_compute; tauto. Qed.
+
+(* ------------------------------------------------------------------------------ *)
+(* the defective rules as they were found (frozen copies): provably not derivatives *)
+(* ------------------------------------------------------------------------------ *)
+
+Definition sqrt_rule_as_found (s : dualR) : dualR := (sqrt (fst s), 1 / 2 / sqrt (snd s)).
+
+Lemma sqrt_rule_as_found_refuted :
+  exists (f : R -> R) (x f' : R), is_derive f x f' /\ 0 < f x /\
+    ~ derives (fun u => sqrt (f u)) x (sqrt_rule_as_found (f x, f')).
+Proof.
+  exists (fun u => u * u), 4, 8. split; [ | split ].
+  - ad_start; [ ad_conds | ringR ].
+  - lra.
+  - intros [_ D]. simpl in D.
+    assert (Hf : is_derive (fun u : R => u * u) 4 8) by (ad_start; [ ad_conds | ringR ]).
+    pose proof (is_derive_sqrt (fun u => u * u) 4 8 Hf ltac:(lra)) as D'.
+    pose proof (is_derive_unique _ _ _ D) as U. pose proof (is_derive_unique _ _ _ D') as U'.
+    cbv beta in U, U'.
+    assert (U2 : 1 / 2 / sqrt 8 = 8 / (2 * sqrt (4 * 4))) by (rewrite <- U; exact U').
+    clear - U2. rename U2 into U'.
+    replace (4 * 4) with (Rsqr 4) in U' by (unfold Rsqr; ring). rewrite sqrt_Rsqr in U' by lra.
+    assert (H8 : 1 <= sqrt 8) by (rewrite <- sqrt_1; apply sqrt_le_1; lra).
+    assert (Hpos : 0 < sqrt 8) by lra.
+    assert (E : 1 / 2 / sqrt 8 = 1) by (rewrite U'; field).
+    assert (1 / 2 / sqrt 8 <= 1 / 2).
+    { unfold Rdiv. rewrite <- (Rmult_1_r (1 * / 2)) at 2. apply Rmult_le_compat_l; [ lra | ].
+      rewrite <- Rinv_1. apply Rinv_le_contravar; lra. }
+    lra.
+Qed.
+
+Definition maximum_aa_rule_as_found (s o : dualR) : dualR :=
+  (Rmax (fst s) (fst o),
+   snd s * (if Rltb (fst s) (fst o) then 0 else if Rltb (fst o) (fst s) then 1 else 1 / 2)).
+
+Lemma maximum_aa_rule_as_found_refuted :
+  exists (f g : R -> R) (x f' g' : R), is_derive f x f' /\ is_derive g x g' /\ f x <> g x /\
+    ~ derives (fun u => Rmax (f u) (g u)) x (maximum_aa_rule_as_found (f x, f') (g x, g')).
+Proof.
+  exists (fun _ => 1), (fun u => 3 * u), 1, 0, 3. split; [ | split; [ | split ] ].
+  - apply is_derive_const_R.
+  - ad_start; [ ad_conds | ringR ].
+  - lra.
+  - intros [_ D]. cbn -[Rltb] in D.
+    assert (Hf : is_derive (fun _ : R => 1) 1 0) by apply is_derive_const_R.
+    assert (Hg : is_derive (fun u : R => 3 * u) 1 3) by (ad_start; [ ad_conds | ringR ]).
+    destruct (maximum_aa_rule (fun _ => 1) (fun u => 3 * u) 1 0 3 Hf Hg ltac:(lra)) as [_ D'].
+    cbn -[Rltb Reqb] in D'.
+    rewrite (Rltb_true 1 (3 * 1)) in D, D' by lra.
+    pose proof (is_derive_unique _ _ _ D) as U. pose proof (is_derive_unique _ _ _ D') as U'.
+    cbv beta in U, U'.
+    assert (E : 0 * 0 = 0 * 0 + 3 * (1 - 0)) by (transitivity (Derive (fun u : R => Rmax 1 (3 * u)) 1); [ symmetry; exact U | exact U' ]).
+    lra.
+Qed.
+
+(* ------------------------------------------------------------------------------ *)
+(* user functions: the two-sided quotient (finite_differentiators.py) on affine functions *)
+(* ------------------------------------------------------------------------------ *)
+From Verif Require Import gen.AldiFdGen.
+
+Lemma fd_epsilon_pos : forall v, 0 < fd_epsilon v.
+Proof.
+  intros v. unfold fd_epsilon, fd_relative_step.
+  apply Rmult_lt_0_compat; [ | lra ].
+  apply Rlt_le_trans with 1; [ lra | apply Rmax_r ].
+Qed.
+
+(* exact on affine functions, at every point *)
+Lemma fd_two_sided_affine : forall a b x : R, fd_two_sided (fun u => a * u + b) x = a.
+Proof.
+  intros a b x. unfold fd_two_sided. pose proof (fd_epsilon_pos x). field. lra.
+Qed.
+
+Lemma fd_two_sided_affine_is_derivative : forall a b x : R,
+  is_derive (fun u => a * u + b) x (fd_two_sided (fun u => a * u + b) x).
+Proof.
+  intros a b x. rewrite fd_two_sided_affine. ad_start; [ ad_conds | ringR ].
+Qed.
+
+(* ------------------------------------------------------------------------------ *)
+(* the rule lemmas grouped as they are restated in props/C02.v                      *)
+(* ------------------------------------------------------------------------------ *)
+
+Lemma rules_arithmetic : forall (f g : R -> R) (x f' g' c : R), is_derive f x f' -> is_derive g x g' ->
+  derives (fun u => - f u) x (atom_neg RD (f x, f')) /\
+  derives f x (atom_pos RD (f x, f')) /\
+  derives (fun u => f u + g u) x (atom_add_aa RD (f x, f') (g x, g')) /\
+  derives (fun u => f u + c) x (atom_add_ac RD (f x, f') c) /\
+  derives (fun u => c + f u) x (atom_radd RD (f x, f') c) /\
+  derives (fun u => f u - g u) x (atom_sub_aa RD (f x, f') (g x, g')) /\
+  derives (fun u => f u - c) x (atom_sub_ac RD (f x, f') c) /\
+  derives (fun u => c - f u) x (atom_rsub RD (f x, f') c) /\
+  derives (fun u => f u * g u) x (atom_mul_aa RD (f x, f') (g x, g')) /\
+  derives (fun u => f u * c) x (atom_mul_ac RD (f x, f') c) /\
+  derives (fun u => c * f u) x (atom_rmul RD (f x, f') c) /\
+  derives (fun u => f u / c) x (atom_truediv_ac RD (f x, f') c) /\
+  (g x <> 0 -> derives (fun u => f u / g u) x (atom_truediv_aa RD (f x, f') (g x, g'))) /\
+  (f x <> 0 -> derives (fun u => c / f u) x (atom_rtruediv RD (f x, f') c)).
+Proof.
+  intros f g x f' g' c Hf Hg.
+  split; [ now apply neg_rule | ]. split; [ now apply pos_rule | ].
+  split; [ now apply add_aa_rule | ]. split; [ now apply add_ac_rule | ]. split; [ now apply radd_rule | ].
+  split; [ now apply sub_aa_rule | ]. split; [ now apply sub_ac_rule | ]. split; [ now apply rsub_rule | ].
+  split; [ now apply mul_aa_rule | ]. split; [ now apply mul_ac_rule | ]. split; [ now apply rmul_rule | ].
+  split; [ now apply truediv_ac_rule | ].
+  split; [ intros; now apply truediv_aa_rule | intros; now apply rtruediv_rule ].
+Qed.
+
+Lemma rules_power : forall (f g : R -> R) (x f' g' c : R) (n : Z), is_derive f x f' -> is_derive g x g' ->
+  (0 < f x -> derives (fun u => rpow (f u) c) x (atom_pow_ac RD (f x, f') c)) /\
+  (f x <> 0 -> derives (fun u => rpow (f u) (IZR n)) x (atom_pow_ac RD (f x, f') (IZR n))) /\
+  (0 < f x -> derives (fun u => rpow (f u) (g u)) x (atom_pow_aa RD (f x, f') (g x, g'))) /\
+  (0 < c -> derives (fun u => rpow c (f u)) x (atom_exponential RD (f x, f') c)).
+Proof.
+  intros f g x f' g' c n Hf Hg.
+  split; [ intros; now apply pow_ac_rule_pos | ]. split; [ intros; now apply pow_ac_rule_int | ].
+  split; [ intros; now apply pow_aa_rule | intros; now apply exponential_rule ].
+Qed.
+
+Lemma rules_functions : forall (f : R -> R) (x f' : R), is_derive f x f' ->
+  (0 < f x -> derives (fun u => ln (f u)) x (atom_log RD (f x, f'))) /\
+  derives (fun u => exp (f u)) x (atom_exp RD (f x, f')) /\
+  (0 < f x -> derives (fun u => sqrt (f u)) x (atom_sqrt RD (f x, f'))) /\
+  derives (fun u => expit (f u)) x (atom_logistic RD (f x, f')).
+Proof.
+  intros f x f' Hf.
+  split; [ intros; now apply log_rule | ]. split; [ now apply exp_rule | ].
+  split; [ intros; now apply sqrt_rule | now apply logistic_rule ].
+Qed.
+
+Lemma rules_maximum : forall (f g : R -> R) (x f' g' c : R), is_derive f x f' -> is_derive g x g' ->
+  (f x <> g x -> derives (fun u => Rmax (f u) (g u)) x (atom_maximum_aa RD (f x, f') (g x, g'))) /\
+  (f x <> c -> derives (fun u => Rmax (f u) c) x (atom_maximum_ac RD (f x, f') c)).
+Proof.
+  intros f g x f' g' c Hf Hg. split; intros; [ now apply maximum_aa_rule | now apply maximum_ac_rule ].
+Qed.
+
+Lemma hypotheses_satisfiable :
+  let t : tree RD := TFun FSqrt (TBin BMul (TVar 0 0) (TVar 0 0)) in
+  let rho : token -> R := fun _ => 4 in
+  adm t rho /\ (exists d, eval RD rho (ind RD (0%Z, 0%Z)) (fun _ => false) t = VA d /\ snd d = 1).
+Proof.
+  cbv zeta. split.
+  - simpl. lra.
+  - eexists. split; [ reflexivity | ].
+    cbn. unfold ind. cbn.
+    replace (4 * 4) with (Rsqr 4) by (unfold Rsqr; ring). rewrite sqrt_Rsqr by lra. field.
+Qed.
